@@ -31,6 +31,11 @@ _CMPOPS = {
 }
 
 
+import z3
+
+_DEAD = object()
+
+
 class ReversedBits:
     """`f"{x:0{n}b}"[::-1]` : the n-bit binary text of x, reversed."""
     def __init__(self, sym, n):
@@ -368,13 +373,11 @@ class Interp:
         env_t = dict(env0)
         env_f = dict(env0)
         frame.env = env_t
-        with explore.scope(c.term):
-            live_t = then(frame, sym_and(guard, c))
+        live_t = self._arm(c, lambda: then(frame, sym_and(guard, c)), False)
         env_t = frame.env          # (a nested merge replaces frame.env)
         frame.env = env_f
         nc = sym_not(c)
-        with explore.scope(nc.term):
-            live_f = orelse(frame, sym_and(guard, nc))
+        live_f = self._arm(nc, lambda: orelse(frame, sym_and(guard, nc)), False)
         env_f = frame.env
         if live_t is False and live_f is False:
             frame.env = env0
@@ -530,12 +533,26 @@ class Interp:
         c = sym_truth(self._eval(node.test, frame, guard))
         if not is_sym(c):
             return self._eval(node.body if c else node.orelse, frame, guard)
-        with explore.scope(c.term):
-            a = self._eval(node.body, frame, sym_and(guard, c))
+        a = self._arm(c, lambda: self._eval(node.body, frame, sym_and(guard, c)), _DEAD)
         nc = sym_not(c)
-        with explore.scope(nc.term):
-            b = self._eval(node.orelse, frame, sym_and(guard, nc))
+        b = self._arm(nc, lambda: self._eval(node.orelse, frame, sym_and(guard, nc)), _DEAD)
+        if a is _DEAD:
+            return b
+        if b is _DEAD:
+            return a
         return sym_ite(c, a, b)
+
+    def _arm(self, cond, thunk, dead):
+        """Run `thunk` assuming `cond`.  An exception inside an arm whose condition is infeasible on this
+        path (a dead arm: e.g. the else of `0 if x == 0 else a // x` when x is 0 throughout) is dropped."""
+        try:
+            with explore.scope(cond.term):
+                return thunk()
+        except Exception:
+            with explore.scope(cond.term):
+                if explore.CURRENT.may_hold(z3.BoolVal(True)):
+                    raise
+            return dead
 
     def _e_Attribute(self, node, frame, guard):
         return getattr(self._eval(node.value, frame, guard), node.attr)
